@@ -148,15 +148,17 @@ impl Report {
         }
         println!("STAT distinct_nontrivial {}", self.distinct.len());
         for s in &self.samples {
-            println!("SAMPLE {}", s);
+            println!("SAMPLE {}", s.replace('\n', "\\n").replace('\r', "\\r"));
         }
         for n in &self.notes {
-            println!("NOTE {}", n);
+            println!("NOTE {}", n.replace('\n', "\\n"));
         }
+        // one line per record: tabs and line breaks inside fields are made visible instead
+        let clean = |s: &str| -> String { s.replace('\\', "\\\\").replace('\t', "\\t").replace('\n', "\\n").replace('\r', "\\r").chars().take(4000).collect() };
         for f in &self.failures {
             println!(
                 "FAIL\t{}\t{}\t{}\t{}\t{}\t{}\t{}\t{}",
-                f.kind, f.op, f.class, f.input, f.imp, f.model, f.spec, f.clause
+                f.kind, clean(&f.op), clean(&f.class), clean(&f.input), clean(&f.imp), clean(&f.model), clean(&f.spec), clean(&f.clause)
             );
         }
     }
